@@ -1,3 +1,4 @@
+import QR.Proofs.SourceTieD2
 import QR.Model.QRObject
 import QR.Proofs.Except
 import QR.Proofs.History
@@ -287,6 +288,83 @@ theorem C11_source_makeImplS_src (test : Bool) (mask : Nat) (g : Global) (s : QR
   QR.SourceTieB.makeImplS_src test mask g s
 
 end SourceTieT2
+
+/-! ### Source tie, part 4 (T2 plugin `tools/t2_fragments/frag_d2.py`): the QRCode object's own methods, translated statement by
+    statement from /repo's current Python AST (`QR.Gen.Code.ob_*`), against the Model. Restated verbatim from
+    `QR/Proofs/SourceTieD2*.lean`. -/
+section SourceTieD2
+open QR.Model QR.Gen.Code QR.SourceTieD2
+
+/-- texts recorded by the translator for the object methods of qrcode/main.py (raise messages, `add_data` branches, `__init__` defaults, class attributes) -/
+theorem C11_source_literals_src :
+    ob_check_box_size_raise0 = "ValueError(f'Invalid box size (was {size}, expected larger than 0)')" ∧
+    ob_check_border_raise0 = "ValueError('Invalid border value (was %s, expected 0 or larger than that)' % size)" ∧
+    ob_check_mask_pattern_raise0 = "TypeError(f'Invalid mask pattern (was {type(mask_pattern)}, expected int)')" ∧
+    ob_check_mask_pattern_raise1 = "ValueError(f'Mask pattern should be in range(8) (got {mask_pattern})')" ∧
+    ob_get_version_cast_type = "int" ∧ ob_add_data_optimize_default = 20 ∧
+    ob_add_data_branches = ["self.data_list.append(data)",
+      "self.data_list.extend(util.optimal_data_chunks(data, minimum=optimize))", "self.data_list.append(util.QRData(data))"] ∧
+    ob_init_defaults = [("version", "None", "None"), ("error_correction", "constants.ERROR_CORRECT_M", "0"),
+      ("box_size", "10", "10"), ("border", "4", "4"), ("image_factory", "None", "None"), ("mask_pattern", "None", "None")] ∧
+    ob_class_attributes = ["_version: Optional[int] = None"] := by
+  first | exact QR.SourceTieD2.literals_src | (apply QR.SourceTieD2.literals_src <;> assumption)
+
+/-- `clear()` = `QRState.cleared` -/
+theorem C11_source_cleared_src {F : Type} (fac : Option F) (s : QRState) : ob_clear (toOb fac s) = toOb fac s.cleared := by
+  first | exact QR.SourceTieD2.cleared_src | (apply QR.SourceTieD2.cleared_src <;> assumption)
+
+/-- `clear()` does not depend on (and overwrites) the four attributes it assigns: on ANY object -/
+theorem C11_source_clear_fields_src {D C F : Type} (o : ob_QR D C F) :
+    ob_clear o = { o with modules := [[]], modules_count := 0, data_cache := none, data_list := [] } := by
+  first | exact QR.SourceTieD2.clear_fields_src | (apply QR.SourceTieD2.clear_fields_src <;> assumption)
+
+/-- the last statement of `add_data` is `self.data_cache = None` (the Model's `.addData` / `.addSeg` reset the cache) -/
+theorem C11_source_add_data_reset_src {F : Type} (fac : Option F) (s : QRState) :
+    ob_add_data_reset (toOb fac s) = toOb fac { s with dataCache := none } := by
+  first | exact QR.SourceTieD2.add_data_reset_src | (apply QR.SourceTieD2.add_data_reset_src <;> assumption)
+
+/-- **`add_data(data, optimize)`** on a byte string = the Model's `.addData`: with `optimize` truthy the chunks of
+    `util.optimal_data_chunks(data, minimum=optimize)` are appended, else the single `util.QRData(data)`; then
+    `self.data_cache = None` -/
+theorem C11_source_addData_src {F : Type} (fac : Option F) (g : Global) (s : QRState) (d : Bytes) (n : Nat) :
+    Agrees fac g s
+      (.ok (ob_add_data (fun d k => optimalDataChunks d k.toNat) (fun d => ({ mode := optimalMode d, data := d } : Seg))
+        (toOb fac s) (.inr d) (n : Int)))
+      (step (g, s) (.addData d n)) := by
+  first | exact QR.SourceTieD2.addData_src | (apply QR.SourceTieD2.addData_src <;> assumption)
+
+/-- `add_data(data)` on a `QRData` object = the Model's `.addSeg`: the object itself is appended (whatever `optimize`),
+    then `self.data_cache = None` -/
+theorem C11_source_addSeg_src {F X : Type} (fac : Option F) (g : Global) (s : QRState) (x : Seg) (k : Int)
+    (chunks : X → Int → List Seg) (mk : X → Seg) :
+    Agrees fac g s (.ok (ob_add_data chunks mk (toOb fac s) (.inl x) k)) (step (g, s) (.addSeg x)) := by
+  first | exact QR.SourceTieD2.addSeg_src | (apply QR.SourceTieD2.addSeg_src <;> assumption)
+
+/-- `clear()` as an operation -/
+theorem C11_source_stepClear_src {F : Type} (fac : Option F) (g : Global) (s : QRState) :
+    Agrees fac g s (.ok (ob_clear (toOb fac s))) (step (g, s) .clear) := by
+  first | exact QR.SourceTieD2.stepClear_src | (apply QR.SourceTieD2.stepClear_src <;> assumption)
+
+/-- **the tail of `__init__`**, for arguments of ANY type and any `util.check_version`: whenever the constructor returns an
+    object, it has stored the `image_factory` argument, that argument passed `assert issubclass(image_factory, BaseImage)`
+    (if not `None`), and the last statement `self.clear()` has run: `modules == [[]]`, `modules_count == 0`,
+    `data_cache is None`, `data_list == []` -/
+theorem C11_source_init_cleared_src {D C F : Type} (cv : ob_Val → Except String Unit) (issub : F → Bool) (self0 : ob_QR D C F)
+    (version level box border : ob_Val) (fac : Option F) (mask : ob_Val) (o : ob_QR D C F)
+    (h : ob_init cv issub self0 version level box border fac mask = .ok o) :
+    o.modules = [[]] ∧ o.modules_count = 0 ∧ o.data_cache = none ∧ o.data_list = [] ∧ o.image_factory = fac ∧
+      (∀ f, fac = some f → issub f = true) := by
+  first | exact QR.SourceTieD2.init_cleared_src | (apply QR.SourceTieD2.init_cleared_src <;> assumption)
+
+/-- reading `self.version`: `best_fit()` runs first when `_version is None`, and the value read afterwards is the stored
+    attribute (not what `best_fit` returned) - the first line of the Model's `makeS` -/
+theorem C11_source_getVersion_src {F : Type} (fac : Option F) (g : Global) (s : QRState) :
+    ob_get_version (bestFitOb fac) g (toOb fac s) =
+      (let p := if s.version = 0 then bestFitS 4 0 s else (s, .ok s.version)
+       ((g, toOb fac p.1), liftR (p.2.map fun _ => (toOb fac p.1)._version))) := by
+  first | exact QR.SourceTieD2.getVersion_src | (apply QR.SourceTieD2.getVersion_src <;> assumption)
+
+end SourceTieD2
 
 /-- the Python functions this property's model mirrors have, in /repo's current working tree, exactly the normalised
     ASTs the model was written and validated against (fingerprints regenerated by T1 on every run) -/
